@@ -174,6 +174,10 @@ func checkCmd(w *world, prop, tier string, seed int, opts *runOpts, expectMode b
 			cons = append(cons, c)
 		}
 	}
+	tagged := len(cons)
+	cons = w.relyClosure(cons)
+	relied := len(cons) - tagged
+	_ = relied
 	if len(cons) == 0 {
 		fmt.Fprintf(os.Stderr, "govc: no contract mentions property %s\n", prop)
 		return loadFailure(prop, tier, seed, w.verifDir, fmt.Errorf("no contract mentions property %s", prop))
@@ -206,6 +210,8 @@ func checkCmd(w *world, prop, tier string, seed int, opts *runOpts, expectMode b
 	var notGen []string
 	assumedSet := map[string]bool{}
 	var fns []string
+	var boundedFns []string
+	boundedObl, boundedDis := 0, 0
 	var assumedContracts []string
 	perSolver := map[string]int{}
 	var solverMs int64
@@ -227,7 +233,17 @@ func checkCmd(w *world, prop, tier string, seed int, opts *runOpts, expectMode b
 				skipped++
 				continue
 			}
-			fns = append(fns, fmt.Sprintf("%s [%s]", label, r.Mode))
+			if j.c.Flags["bounded"] {
+				note := ""
+				for _, n := range j.c.Notes {
+					if strings.HasPrefix(n, "bounded: ") {
+						note = strings.TrimPrefix(n, "bounded: ")
+					}
+				}
+				boundedFns = append(boundedFns, fmt.Sprintf("%s [%s] BOUNDED stand-in, not a proof: %s", label, r.Mode, note))
+			} else {
+				fns = append(fns, fmt.Sprintf("%s [%s]", label, r.Mode))
+			}
 			if r.Err != "" {
 				notGen = append(notGen, fmt.Sprintf("%s [%s]: %s", label, r.Mode, r.Err))
 				continue
@@ -264,6 +280,9 @@ func checkCmd(w *world, prop, tier string, seed int, opts *runOpts, expectMode b
 				}
 				if len(o.Agreed) > 0 {
 					agreedAll++
+				}
+				if j.c.Flags["bounded"] {
+					o.Bounded = true
 				}
 				all = append(all, o)
 				perSolver[o.Solver]++
@@ -338,6 +357,13 @@ func checkCmd(w *world, prop, tier string, seed int, opts *runOpts, expectMode b
 	rpDir := filepath.Join(w.verifDir, "replays", prop)
 	_ = os.RemoveAll(rpDir)
 	for _, o := range all {
+		if o.Bounded {
+			boundedObl++
+		}
+		if o.Status == "discharged" && o.Bounded {
+			boundedDis++
+			continue
+		}
 		if o.Status == "discharged" {
 			discharged++
 			if len(samples) < 12 && !o.Trivial {
@@ -407,31 +433,34 @@ func checkCmd(w *world, prop, tier string, seed int, opts *runOpts, expectMode b
 			trusted = append(trusted, a)
 		}
 	}
-	nObl := len(all) - knownHits
+	nObl := len(all) - knownHits - boundedObl
 	ev := &evidence{PropertyID: prop, Tier: tier, Seed: seed, Level: "proof", Violations: violations, Assumptions: assumptions,
 		WallS: float64(time.Since(t0).Milliseconds()) / 1000,
 		Coverage: map[string]any{
 			"obligations": nObl, "discharged": discharged,
-			"checker_cmd":                fmt.Sprintf("/verif/bin/govc check -prop %s -tier %s (VC generation over go/ssa of %s; z3-new 5.1.0 / z3 4.8.12 / cvc5 raced per obligation)", prop, tier, w.repo),
-			"trusted_base":               trusted,
-			"functions_under_contract":   fns,
-			"samples":                    samples,
-			"paths":                      paths,
-			"per_solver":                 perSolver,
-			"solver_ms_total":            solverMs,
-			"load_ms":                    loadMs,
-			"known_finding_obligations":  knownHits,
-			"not_generated":              append(notGen, missing...),
-			"vacuous_preconditions":      vacuous,
-			"thorough_paths_feasible":    pathsFeasible,
-			"thorough_paths_infeasible":  pathsInfeasible,
+			"checker_cmd":               fmt.Sprintf("/verif/bin/govc check -prop %s -tier %s (VC generation over go/ssa of %s; z3-new 5.1.0 / z3 4.8.12 / cvc5 raced per obligation)", prop, tier, w.repo),
+			"trusted_base":              trusted,
+			"functions_under_contract":  fns,
+			"samples":                   samples,
+			"paths":                     paths,
+			"per_solver":                perSolver,
+			"solver_ms_total":           solverMs,
+			"load_ms":                   loadMs,
+			"known_finding_obligations": knownHits,
+			"not_generated":             append(notGen, missing...),
+			"vacuous_preconditions":     vacuous,
+			"thorough_paths_feasible":   pathsFeasible,
+			"thorough_paths_infeasible": pathsInfeasible,
 			"thorough_obligations_confirmed_by_a_second_solver": agreedAll,
-			"variant_methods_not_offered": skipped,
-			"expected_keys":              len(counts),
-			"contract_mirror_notes":      w.mirrorMsg,
-			"bounded":                    []string{},
-			"integer_semantics":          "64/32/8-bit bit-vectors with Go wrap-around semantics (no mathematical integers)",
-			"verified_text":              "go/ssa built from the files of " + w.repo + " on this run; contracts from /verif/contracts overlaid as verif_contracts.go (build tag verif)",
+			"variant_methods_not_offered":                       skipped,
+			"expected_keys":                                     len(counts),
+			"contract_mirror_notes":                             w.mirrorMsg,
+			"bounded":                                           boundedFns,
+			"bounded_obligations":                               boundedObl,
+			"bounded_obligations_passed":                        boundedDis,
+			"bounded_note":                                      "bounded stand-ins execute the real code of functions whose contracts are ASSUMED (A-deque) on all inputs up to the stated bound; they are not counted in obligations/discharged and prove nothing beyond the bound",
+			"integer_semantics":                                 "64/32/8-bit bit-vectors with Go wrap-around semantics (no mathematical integers)",
+			"verified_text":                                     "go/ssa built from the files of " + w.repo + " on this run; contracts from /verif/contracts overlaid as verif_contracts.go (build tag verif)",
 		}}
 	if len(samples) == 0 {
 		ev.Coverage["samples"] = []any{"(no discharged non-trivial obligation)"}
@@ -497,4 +526,103 @@ func verifyGlobals(w *world, cons []*Contract) string {
 		}
 	}
 	return ""
+}
+
+// relyClosure extends the contracts tagged with a property by every function contract that their functions rely on:
+// a function verified against callee contracts is only as good as those contracts, so the callees are verified in the
+// same check (transitively, through inlined helpers, closures and function values). Interface contracts (the node
+// variants) are not followed; they belong to the properties they are tagged with.
+func (w *world) relyClosure(cons []*Contract) []*Contract {
+	have := map[*Contract]bool{}
+	var queue []*ssa.Function
+	seenFn := map[*ssa.Function]bool{}
+	push := func(f *ssa.Function) {
+		if f == nil {
+			return
+		}
+		if o := f.Origin(); o != nil {
+			f = o
+		}
+		if !seenFn[f] {
+			seenFn[f] = true
+			queue = append(queue, f)
+		}
+	}
+	for _, c := range cons {
+		have[c] = true
+		if c.Kind != "iface" && !c.Flags["assumed"] {
+			push(w.ssaFunc(c))
+		}
+	}
+	resolve := func(f *ssa.Function) *ssa.Function {
+		if f == nil {
+			return nil
+		}
+		if f.Synthetic != "" && strings.HasPrefix(f.Synthetic, "bound method wrapper") {
+			if fo, ok := f.Object().(*types.Func); ok {
+				m := w.prog.FuncValue(fo)
+				if m == nil {
+					m = w.prog.FuncValue(fo.Origin())
+				}
+				return m
+			}
+			return nil
+		}
+		return f
+	}
+	out := append([]*Contract(nil), cons...)
+	visit := func(f *ssa.Function) {
+		f = resolve(f)
+		if f == nil {
+			return
+		}
+		if o := f.Origin(); o != nil {
+			f = o
+		}
+		if !w.isRepoPkg(f) {
+			return
+		}
+		if f.Parent() == nil {
+			if c := w.contracts[fnKey(f)]; c != nil {
+				if !have[c] {
+					have[c] = true
+					out = append(out, c)
+				}
+				if c.Flags["assumed"] {
+					return
+				}
+			}
+		}
+		push(f)
+	}
+	for len(queue) > 0 {
+		f := queue[0]
+		queue = queue[1:]
+		for _, af := range f.AnonFuncs {
+			push(af)
+		}
+		for _, b := range f.Blocks {
+			for _, in := range b.Instrs {
+				if c, ok := in.(ssa.CallInstruction); ok {
+					if sc := c.Common().StaticCallee(); sc != nil {
+						visit(sc)
+					}
+				}
+				for _, op := range in.Operands(nil) {
+					if op == nil || *op == nil {
+						continue
+					}
+					switch v := (*op).(type) {
+					case *ssa.Function:
+						visit(v)
+					case *ssa.MakeClosure:
+						if cf, ok := v.Fn.(*ssa.Function); ok {
+							visit(cf)
+						}
+					}
+				}
+			}
+		}
+	}
+	return out
 }
